@@ -11,6 +11,8 @@
 From Coq Require Import ZArith List Bool String Lia.
 From Omega Require Import L0Bits.Bits L0Bits.BitsFacts L3Context.Ctx L3Context.CtxFacts
   L3Context.Prime L3Context.Naming L3Context.NamingFacts.
+From OmegaGen Require EnumGen.
+From OmegaGP Require Import EnumBridge.
 Import ListNotations.
 Open Scope Z_scope.
 
@@ -273,6 +275,134 @@ Theorem C07_count_eq_yield_default : forall t u cubes s,
     ctx_pick_iter t u None cubes = Some ds /\ n = Z.of_nat (List.length ds).
 Proof. exact count_eq_yield_default. Qed.
 
+(* ==== tie T: the enumeration code is TRANSLATED ======================================================
+   omega/symbolic/enumeration.py (_enumerate_int, _take_product_iter,
+   _bitfields_to_int_iter) and omega/logic/bitvector.py (_append_sign_bit) are
+   translated into Gallina on every run (tools/py2coq_enum.py -> gen/EnumGen.v;
+   generators become the list of yielded values, None is any exception, fuel
+   bounds the recursion depth) and GenProofs/EnumBridge.v proves, on every run,
+   that the generated definitions ARE the model used above:
+     - _append_sign_bit, _enumerate_int: equal (same list, same order; failure
+       in the same cases) for every non-empty bit field / every index in range;
+     - _take_product_iter, _bitfields_to_int_iter: equal to the model applied
+       to the REVERSED dict of sets (the code pops the last item, the model
+       takes the first), for every table with distinct names; the reversed
+       model yields the same dictionaries as the model up to the order of the
+       list and of the keys, the same number, without repetition.
+   The statements hold for EVERY sufficient fuel ([fuel_ok]; one always
+   exists). *)
+Theorem C07_enumeration_model_is_translated_code :
+  (forall (B T : Type) bits var (d : EnumGen.entry B), bits <> [] ->
+     @EnumGen.append_sign_bit B T bits var d =
+     m_of_opt (Bits.append_sign_bit (Some false) (Some true) bits (hint_of d))) /\
+  (forall fuel bs j, 0 <= j < Z.of_nat (List.length bs) ->
+     (Z.to_nat (Z.of_nat (List.length bs) - j) <= fuel)%nat ->
+     EnumGen.enumerate_int fuel bs j =
+     Some (Datatypes.tt, enumerate_int_from j (skipn (Z.to_nat j) bs))) /\
+  (forall fuel bs, bs <> [] -> (List.length bs <= fuel)%nat ->
+     EnumGen.enumerate_int fuel bs 0 = Some (Datatypes.tt, Bits.enumerate_int bs)) /\
+  (forall fuel bs j, Z.of_nat (List.length bs) <= j ->
+     EnumGen.enumerate_int fuel bs j = None) /\
+  (forall sets fuel model, (List.length sets < fuel)%nat ->
+     NoDup (map fst sets) ->
+     (forall x, In x (map fst sets) -> ~ In x (map fst model)) ->
+     EnumGen.take_product_iter fuel sets model =
+     Some (Datatypes.tt, Ctx.take_product (rev sets) model)) /\
+  (forall t c fuel, NoDup (map fst t) -> fuel_ok t fuel ->
+     EnumGen.bitfields_to_int_iter bit bit_eqb bool_bit fuel c (table_of t) =
+     match bitfields_rev t c with
+     | Some L => Some (Datatypes.tt, L)
+     | None => None
+     end) /\
+  (forall t c, wf_tbl t -> cube_ok (all_bits t) c ->
+     exists Lr Lm, bitfields_rev t c = Some Lr /\
+       Ctx.bitfields_to_int_iter t c = Some Lm /\
+       List.length Lr = List.length Lm /\ NoDup Lr /\ NoDup Lm /\
+       (forall d, In d Lr -> exists d', In d' Lm /\ Permutation.Permutation d d') /\
+       (forall d', In d' Lm -> exists d, In d Lr /\ Permutation.Permutation d d')).
+Proof. exact enumeration_model_is_translated_code. Qed.
+
+(* C07_enumerate_int_spec for the translated generator *)
+Theorem C07_translated_enumerate_int_spec : forall fuel bs,
+  bs <> [] -> (List.length bs <= fuel)%nat ->
+  exists l, EnumGen.m_values (EnumGen.enumerate_int fuel bs 0) = Some l /\
+    (forall v, In v l <->
+               exists bits, agrees bs bits /\ twos_complement_to_int bits = v) /\
+    NoDup l.
+Proof. exact enumerate_int_gen_spec. Qed.
+
+(* C07_pick_iter_spec for Context.pick_iter running the translated
+   _bitfields_to_int_iter (ctx_pick_iter_gen): sound, complete, exactly once *)
+Theorem C07_translated_pick_iter_spec : forall t u care_vars cb cubes fuel,
+  wf_tbl t -> uses_only (all_bits t) u ->
+  care_bits_of t care_vars = Some cb ->
+  contract (all_bits t) u cb cubes -> fuel_ok t fuel ->
+  exists ds, ctx_pick_iter_gen fuel t u care_vars cubes = Some ds /\
+    NoDup ds /\
+    (forall d, In d ds -> NoDup (map fst d) /\
+       forall y w, In (y, w) d -> exists dy, In (y, dy) t /\ val_in_range dy w = true) /\
+    (forall d f, In d ds -> in_range t f -> extends f d -> sem t u f = true) /\
+    (forall f, in_range t f -> sem t u f = true -> exists d, In d ds /\ extends f d) /\
+    (forall f d1 d2, in_range t f -> In d1 ds -> In d2 ds ->
+       extends f d1 -> extends f d2 -> d1 = d2).
+Proof. exact pick_iter_gen_spec. Qed.
+
+Theorem C07_translated_pick_iter_total : forall t u care_vars cb cubes s fuel,
+  wf_tbl t -> uses_only (all_bits t) u ->
+  care_bits_of t care_vars = Some cb ->
+  contract (all_bits t) u cb cubes -> fuel_ok t fuel ->
+  ctx_support t u = Some s ->
+  match care_vars with
+  | None => True
+  | Some cv => forall x, In x s -> In x cv
+  end ->
+  forall ds, ctx_pick_iter_gen fuel t u care_vars cubes = Some ds ->
+  forall d, In d ds ->
+  forall y, In y (map fst d) <->
+            In y s \/ In y (match care_vars with Some cv => cv | None => [] end).
+Proof. exact pick_iter_gen_total. Qed.
+
+Theorem C07_translated_count_eq_yield : forall t u cv cb cubes s fuel,
+  wf_tbl t -> uses_only (all_bits t) u -> ctx_support t u = Some s ->
+  (forall x, In x s -> In x cv) ->
+  (forall x, In x cv -> exists d, tlookup x t = Some d) ->
+  care_bits_of t (Some cv) = Some cb ->
+  contract (all_bits t) u cb cubes -> fuel_ok t fuel ->
+  exists n ds, ctx_count t u (Some cv) = Some n /\
+    ctx_pick_iter_gen fuel t u (Some cv) cubes = Some ds /\
+    n = Z.of_nat (List.length ds) /\ n = Z.of_nat (List.length cubes).
+Proof. exact count_eq_yield_gen. Qed.
+
+Theorem C07_translated_count_eq_yield_default : forall t u cubes s fuel,
+  wf_tbl t -> uses_only (all_bits t) u -> ctx_support t u = Some s ->
+  contract (all_bits t) u None cubes -> fuel_ok t fuel ->
+  exists n ds, ctx_count t u None = Some n /\
+    ctx_pick_iter_gen fuel t u None cubes = Some ds /\ n = Z.of_nat (List.length ds).
+Proof. exact count_eq_yield_default_gen. Qed.
+
+(* non-vacuity: sufficient fuel exists for every table; and the translated code
+   runs: one cube of the example context, in the order Python yields *)
+Example C07_fuel_exists : forall t, exists fuel, fuel_ok t fuel.
+Proof. exact fuel_ok_exists. Qed.
+
+Example C07_translated_code_runs :
+  let t : tbl := [("x"%string, DInt (mkHint 2 false (0, 2))); ("b"%string, DBool);
+                  ("y"%string, DInt (mkHint 3 true (-3, 2)))] in
+  let c : cube := [(("x"%string, 1%nat), true); (("b"%string, 0%nat), false);
+                   (("y"%string, 2%nat), true); (("y"%string, 0%nat), false)] in
+  fuel_ok t 5 /\
+  EnumGen.m_values
+    (EnumGen.bitfields_to_int_iter bit bit_eqb bool_bit 5 c (table_of t)) =
+  Some [[("b"%string, VB false); ("x"%string, VZ 2); ("y"%string, VZ (-4))];
+        [("b"%string, VB false); ("x"%string, VZ 2); ("y"%string, VZ (-2))];
+        [("b"%string, VB false); ("x"%string, VZ 3); ("y"%string, VZ (-4))];
+        [("b"%string, VB false); ("x"%string, VZ 3); ("y"%string, VZ (-2))]].
+Proof.
+  split; [|vm_compute; reflexivity].
+  split; [cbn; lia|].
+  intros x h [E|[E|[E|[]]]]; inversion E; subst; cbn; lia.
+Qed.
+
 Print Assumptions C07_bits_values_bijection.
 Print Assumptions C07_enumerate_int_spec.
 Print Assumptions C07_let_values_spec.
@@ -292,3 +422,9 @@ Print Assumptions C07_count_eq_yield_default.
 Print Assumptions C07_pick_spec.
 Print Assumptions C07_replace_with_bdd_spec.
 Print Assumptions C07_naming_injective.
+Print Assumptions C07_enumeration_model_is_translated_code.
+Print Assumptions C07_translated_enumerate_int_spec.
+Print Assumptions C07_translated_pick_iter_spec.
+Print Assumptions C07_translated_pick_iter_total.
+Print Assumptions C07_translated_count_eq_yield.
+Print Assumptions C07_translated_count_eq_yield_default.
